@@ -10,4 +10,9 @@ var (
 	// ErrIncompatible means it is trying to unmarshal data from an incompatible
 	// version.
 	ErrIncompatible = errors.New("incompatible with marshaled data")
+
+	// ErrStepTooLong means a single-branch run between two branching positions
+	// of the keys is too long to be stored in the 16-bit step of an inner
+	// node that does not store its prefix.
+	ErrStepTooLong = errors.New("step between branches exceeds 65535 half-bytes")
 )
